@@ -73,7 +73,18 @@ func runWorker(e *Env, ses *workerlib.Session, maxprocs int, timeout time.Durati
 			ses.SimProcs = curSimProcs
 		}
 	}
+	if ses.SimEpoch == 0 {
+		// per process: a different moment within roughly three years from 2023-11-14
+		ses.SimEpoch = int64(1700000000e9) + int64(simrt.Mix(ses.Seed, uint64(ses.Worker), 0xe90c)%uint64(1000*24*3600))*int64(1e9)/10*10
+		if ses.Mode == "seqall" || ses.Mode == "cover" {
+			ses.SimEpoch = int64(1700000000e9)
+		}
+		if curSimEpoch > 0 {
+			ses.SimEpoch = curSimEpoch
+		}
+	}
 	cmd.Env = append(cmd.Env,
+		fmt.Sprintf("VERIF_SIM_EPOCH=%d", ses.SimEpoch),
 		fmt.Sprintf("VERIF_SIM_PROCS=%d", ses.SimProcs),
 		fmt.Sprintf("GOMAXPROCS=%d", maxprocs),
 		"GOTRACEBACK=single",
